@@ -80,3 +80,38 @@ META['C07'] = dict(
     technique='property-based testing (rapid): byte-exact expected output from a field/ANSI model + exit-status table',
     level_text='Exploration: generated lines and framing option combinations through the filter pipeline (library) and the real binary (process level).',
     level_note='Trusts the field model and ANSI model in harness/oracle.')
+
+META['C10'] = dict(
+    engine='rapid-inpkg',
+    design_ref='DESIGN.md section 4, C10',
+    technique='exhaustive small table + property-based testing (rapid) against a field/range reference model; positions checked against the full line',
+    level_text='Exploration with an exhaustively enumerated sub-domain (all range spellings with bounds in -4..4 x 0..5 fields x 3 delimiter kinds) plus random lines, range lists and --nth queries.',
+    level_note='Trusts harness/oracle/fields.go; adopts the observed convention for trailing empty fields (literal vs regex delimiter) where the documentation is silent.')
+
+META['C11'] = dict(
+    engine='rapid-inpkg',
+    design_ref='DESIGN.md section 4, C11',
+    technique='property-based testing (rapid): arbitrary bytes against the specification regex + span well-formedness; grammar-generated SGR/OSC-8 streams against an SGR interpreter model',
+    level_text='Exploration: hundreds of thousands to millions of byte strings and grammar streams (1-3 lines with carried state); stripping equality, per-character style equality, span well-formedness.',
+    level_note='Trusts the regular expression quoted in src/ansi.go as the specification of what is removed and the SGR interpreter in harness/oracle/ansi.go; one known finding (invalid UTF-8 recombination) is excluded by an exact classifier.')
+
+META['C12'] = dict(
+    engine='rapid-inpkg',
+    design_ref='DESIGN.md section 4, C12',
+    technique='property-based round-trip testing (rapid) through the real /bin/sh (dash) and bash: expansion -> shell -> argv compared with the expected words, canary file for injected commands',
+    level_text='Exploration: thousands (quick) to ~100k (thorough) templates x hostile item/query texts, each evaluated by two real shells.',
+    level_note='Trusts dash and bash as the POSIX-shell oracles; fish is modelled, not run.')
+
+META['C17'] = dict(
+    engine='rapid-inpkg',
+    design_ref='DESIGN.md section 4, C17',
+    technique='property-based testing (rapid): grammar-generated bind strings (round-trip against the AST), generated argument vectors (totality, last-wins, env/file layering differential)',
+    level_text='Exploration: generated bind ASTs through 17 delimiter forms, generated argv over the scraped option vocabulary; exit status/stderr of rejected vectors is checked at process level.',
+    level_note='Trusts the key-name -> event table for the 15 keys used and the documented restriction on closing delimiters inside arguments.')
+
+META['C18'] = dict(
+    engine='rapid-inpkg',
+    design_ref='DESIGN.md section 4, C18',
+    technique='stateful property-based testing (rapid state machine over sessions) against a history-file reference model',
+    level_text='Exploration: tens of thousands of multi-session histories on a real file, every previous/next result and every file content compared with the model.',
+    level_note='Sessions are driven through the History type exactly in the order the terminal uses it (override, previous/next, append); the process-level check drives the real binary.')
